@@ -698,6 +698,36 @@ static int t_mpf_exact (const char *f, int budget)
           ok = rn == keep && pr->_mp_exp == u0->_mp_exp && (rn == 0 || (pr->_mp_size < 0) == wneg) && memcmp (pr->_mp_d, u0->_mp_d + (un - keep), keep * sizeof (L)) == 0 && mpf_wf (pr);
           if (!ok) { failed (f); printf (" alias=%d", al); show_f ("u", u0); show_f ("got", pr); printf ("\n"); return 1; }
         }
+      else if (!strcmp (f, "mpf_trunc") || !strcmp (f, "mpf_ceil") || !strcmp (f, "mpf_floor"))
+        {
+          int tr = !strcmp (f, "mpf_trunc"), al = tr && (rnd64 () % 4 == 0); mpf_ptr pr = al ? u : r;
+          if (!tr) mpf_set_prec (r, 64 * 7);                                    /* ceil/floor: enough precision for an exact answer */
+          mpf_to_scaled (a, u0, 8);
+          if (tr) mpz_tdiv_q_2exp (b, a, 64 * 8); else if (!strcmp (f, "mpf_ceil")) mpz_cdiv_q_2exp (b, a, 64 * 8); else mpz_fdiv_q_2exp (b, a, 64 * 8);
+          if (tr) mpf_trunc (pr, u); else if (!strcmp (f, "mpf_ceil")) mpf_ceil (pr, u); else mpf_floor (pr, u);
+          int bn = mpz_size (b), keep = bn < pr->_mp_prec + 1 ? bn : pr->_mp_prec + 1, rn = abs (pr->_mp_size);
+          /* r must equal the top `keep` limbs of b (low zero limbs of r may be stored or dropped: compare as scaled integers) */
+          mpz_t c; mpz_init (c); mpf_to_scaled (c, pr, 0); mpz_t bt; mpz_init (bt); mpz_tdiv_q_2exp (bt, b, 64 * (bn - keep)); mpz_mul_2exp (bt, bt, 64 * (bn - keep));
+          ok = mpz_cmp (c, bt) == 0 && mpf_wf (pr) && rn <= pr->_mp_prec + 1;
+          if (!ok) { failed (f); printf (" alias=%d", al); show_f ("u", u0); show_f ("got", pr); show_z ("want", bt); printf ("\n"); return 1; }
+          mpz_clear (c); mpz_clear (bt);
+        }
+      else if (!strcmp (f, "mpf_cmp_si"))
+        {
+          long v = (long) pat (); if (it % 3 == 0 && un == 1 && u->_mp_exp == 1) v = (long) (u->_mp_d[0] + (rnd64 () % 3) - 1) * (u->_mp_size < 0 ? -1 : 1);
+          if (it % 5 == 0 && un >= 2 && u->_mp_exp == 1) v = (long) u->_mp_d[un - 1] * (u->_mp_size < 0 ? -1 : 1);
+          mpf_to_scaled (a, u, 8); mpz_set_si (b, v); mpz_mul_2exp (b, b, 64 * 8);
+          int want = SG (mpz_cmp (a, b)), got = SG (mpf_cmp_si (u, v));
+          if (got != want) { failed (f); show_f ("u", u); printf (" v=%ld got=%d want=%d\n", v, got, want); return 1; }
+        }
+      else if (!strcmp (f, "mpf_swap"))
+        {
+          mpf_t v0; mpf_init2 (v0, 64 * 8); mpf_set (r, u0); mpf_neg (r, r); mpf_set (v0, r); void *pu = u->_mp_d, *pr2 = r->_mp_d; int pru = u->_mp_prec, prr = r->_mp_prec;
+          mpf_swap (u, r);
+          ok = u->_mp_d == pr2 && r->_mp_d == pu && u->_mp_prec == prr && r->_mp_prec == pru && mpf_cmp (u, v0) == 0 && mpf_cmp (r, u0) == 0;
+          if (!ok) { failed (f); show_f ("u", u); show_f ("v", r); printf ("\n"); return 1; }
+          mpf_clear (v0);
+        }
       else if (!strcmp (f, "mpf_integer_p"))
         {
           long e = u->_mp_exp; int want = 1;                                   /* limbs below the radix point: indices < un - exp */
@@ -859,7 +889,7 @@ int main (int argc, char **argv)
   if (!strncmp (f, "mpz_cmp", 7) || !strncmp (f, "mpz_fits", 8) || !strncmp (f, "mpz_get", 7) || !strncmp (f, "mpz_set_", 8)) return t_mpz_c11 (f, budget);
   if (!strcmp (f, "raw")) { int r1 = t_raw (f, budget); return r1 ? r1 : t_raw_leak (budget); }
   if (!strncmp (f, "mpq_", 4)) return t_mpq (f, budget);
-  if (!strcmp (f, "mpf_neg") || !strcmp (f, "mpf_abs") || !strcmp (f, "mpf_set") || !strcmp (f, "mpf_integer_p") || !strcmp (f, "mpf_get_ui") || !strcmp (f, "mpf_get_si") || !strncmp (f, "mpf_fits_", 9) || !strcmp (f, "mpf_cmp_ui") || !strcmp (f, "mpf_set_ui") || !strcmp (f, "mpf_set_si")) return t_mpf_exact (f, budget);
+  if (!strcmp (f, "mpf_neg") || !strcmp (f, "mpf_abs") || !strcmp (f, "mpf_set") || !strcmp (f, "mpf_integer_p") || !strcmp (f, "mpf_get_ui") || !strcmp (f, "mpf_get_si") || !strncmp (f, "mpf_fits_", 9) || !strcmp (f, "mpf_cmp_ui") || !strcmp (f, "mpf_set_ui") || !strcmp (f, "mpf_set_si") || !strcmp (f, "mpf_trunc") || !strcmp (f, "mpf_ceil") || !strcmp (f, "mpf_floor") || !strcmp (f, "mpf_cmp_si") || !strcmp (f, "mpf_swap")) return t_mpf_exact (f, budget);
   if (!strcmp (f, "mpz_gcd_ui") || !strcmp (f, "mpz_invert") || !strcmp (f, "mpz_lcm")) return t_mpz_gcdfam (f, budget);
   if (!strcmp (f, "mpz_urandomb") || !strcmp (f, "gmp_urandomb_ui") || !strcmp (f, "gmp_urandomm_ui") || !strcmp (f, "mpn_urandomm") || !strcmp (f, "mpz_urandomm") || !strcmp (f, "randseed_lc")) return t_random (f, budget);
   if (!strcmp (f, "mpf_cmp")) return t_mpf_cmp (f, budget);
